@@ -892,6 +892,9 @@ func (i *interpreter) unop(instr *ssa.UnOp, x value) value {
 			return -x
 		}
 	case token.MUL:
+		if sp, ok := x.(symElemPtr); ok {
+			return i.indexTable(sp.arr, sp.idx)
+		}
 		p := x.(*value)
 		if p == nil {
 			panic(targetPanic{"runtime error: invalid memory address or nil pointer dereference"})
